@@ -2,6 +2,7 @@
 import importlib
 import numpy as np
 from lib import common, rslsweep, numwf, obrun
+from corr import instk
 import obligations
 
 LEVEL = "proof"
@@ -9,7 +10,9 @@ TRUSTED = ["Coq 8.16.1 kernel + vm_compute; Coquelicot auto_derive, field, CoqIn
            "axioms as printed: real numbers (sig_forall_dec, sig_not_dec), functional_extensionality_dep, classic (via Reals/Coquelicot)",
            "tools/pyk2coq.py + tools/sites.py (translators; decimal literals are read as exact decimals, not as binary doubles)",
            "special functions enter through hypotheses (KTactics.special_ok), shown satisfiable in SpecialR.v; the Chebyshev li2/nielsen code is not verified",
-           "closures over instance state (heavy CC h_q, asymptotic intrinsic, LeProHQ-based heavy NC incl. the Adler local terms) are NOT translated: "
+           "tools/pyinst.py translates the closures over instance state of the heavy CC classes (h_q, h_g: args[0] = lambda) — obligations WFI_*; the translation is "
+           "additionally validated numerically against real instances (corr/instk.py)",
+           "other closures over instance state (asymptotic intrinsic, LeProHQ-based heavy NC incl. the Adler local terms, intrinsic S+/S-) are NOT translated: "
            "they are covered by the numerical sweep only"]
 TOL = 2e-5
 
@@ -114,6 +117,8 @@ def run(chk):
                           % (m["sing"].split(".")[-1], m["loc"].split(".")[-1], w["nf"], w["b"], w["a"], w["loc_b"] - w["loc_a"] + w["int_sing"], w["defect"],
                              "; certificate: residual coefficient %.6g on ln(1-x)^%d/(1-x) at nf=%d" % (cert["d"], cert["power_of_L"], cert["nf"]) if cert else ""),
                           dict(obligation=m, numeric=w, coq_log=log[-600:]))
+    tb = instk.run_inst_translation(chk)
+    chk.oblige("validation of the instance-closure translator against real instances", not tb, str(tb[:1]))
     bad, nonfinite = sweep(chk, 120 if quick else 100000, (0.5, 3.0, 30.0, 3000.0) if quick else (0.5, 1.0, 3.0, 10.0, 30.0, 300.0, 3000.0, 300000.0))
     reported = {v["key"] for v in chk.violations}
     for (cls, o), (ident, w) in bad.items():
